@@ -54,6 +54,7 @@ type BatchCfg struct {
 	WarmN    int    // > 0: ... and with this retry budget
 	PrepN    bool   // the node is constructed with another retry budget; its own prep callback sets the real one
 	PrepC    bool   // ... with another concurrency level
+	Inner    bool   // every exec call first runs a small flow of its own on a store of its own (a batch of sub-flows)
 	DupKind  string // "" or: all items carry the same value of this kind (scenario of counted facts, family batchdup)
 	PostBE   bool   // post fails with an empty *flyt.BatchError (the library's own aggregate type) as its error value
 	NilItem  int    // > 0: this item is a Result holding nil (it is processed like any other item)
@@ -66,7 +67,7 @@ func parseBatchCfg(m map[string]any) BatchCfg {
 		PostErr: asBool(m["posterr"]), Gated: asBool(m["gated"]), Strict: asBool(m["strict"]),
 		Shape: asStr(m["shape"]), ExSty: asStr(m["exsty"]), Via: asStr(m["via"]), Sched: asStr(m["sched"]),
 		CtxKind: asStr(m["ctxkind"]), GenSeed: asStr(m["genseed"]), WarmC: asInt(m["warmc"]), Procs: asInt(m["procs"]), After: asBool(m["after"]), WarmN: asInt(m["warmn"]),
-		PrepN: asBool(m["prepn"]), NilItem: asInt(m["nilitem"]), PrepC: asBool(m["prepc"]), PostBE: asBool(m["postbe"]), DupKind: asStr(m["dupkind"])}
+		PrepN: asBool(m["prepn"]), NilItem: asInt(m["nilitem"]), PrepC: asBool(m["prepc"]), PostBE: asBool(m["postbe"]), DupKind: asStr(m["dupkind"]), Inner: asBool(m["inner"])}
 	for _, a := range asList(m["barrier"]) {
 		c.Barrier = append(c.Barrier, asInt(a))
 	}
@@ -117,7 +118,7 @@ func (c BatchCfg) toJSON() map[string]any {
 	return map[string]any{"N": c.N, "n": c.Items, "c": c.C, "stopmode": c.StopMode, "w": c.W, "fb": c.Fb, "ctx0": c.Ctx0,
 		"cancel": c.Cancel, "acts": acts, "outs": outs, "preperr": c.PrepErr, "posterr": c.PostErr, "gated": c.Gated,
 		"strict": c.Strict, "shape": c.Shape, "exsty": c.ExSty, "via": c.Via, "sched": c.Sched, "ctxkind": c.CtxKind, "genseed": c.GenSeed,
-		"barrier": bar, "warmc": c.WarmC, "erritems": eit, "procs": c.Procs, "after": c.After, "warmn": c.WarmN, "prepn": c.PrepN, "nilitem": c.NilItem, "prepc": c.PrepC, "postbe": c.PostBE, "dupkind": c.DupKind}
+		"barrier": bar, "warmc": c.WarmC, "erritems": eit, "procs": c.Procs, "after": c.After, "warmn": c.WarmN, "prepn": c.PrepN, "nilitem": c.NilItem, "prepc": c.PrepC, "postbe": c.PostBE, "dupkind": c.DupKind, "inner": c.Inner}
 }
 
 // ---- script ----------------------------------------------------------------
@@ -678,11 +679,13 @@ func (b *batchRun) build() *flyt.BatchNodeBuilder {
 	}
 	if cfg.ExSty == "a" {
 		bn.WithExecFuncAny(func(ctx context.Context, p any) (any, error) {
+			b.runInner(ctx)
 			v, _, err := b.exec(b.reg.ObserveAny(p))
 			return v, err
 		})
 	} else {
 		bn.WithExecFunc(func(ctx context.Context, p flyt.Result) (flyt.Result, error) {
+			b.runInner(ctx)
 			v, eres, err := b.exec(b.reg.ObserveResult(p))
 			if err != nil {
 				return flyt.Result{}, err
@@ -1077,4 +1080,41 @@ func runBatchDup(cfg BatchCfg) []Event {
 	ev["execs"], ev["posts"] = int(atomic.LoadInt32(&execs)), int(atomic.LoadInt32(&posts))
 	ev["items"], ev["slots"], ev["okslots"] = int(atomic.LoadInt32(&items)), int(atomic.LoadInt32(&slots)), int(atomic.LoadInt32(&okslots))
 	return []Event{ev}
+}
+
+// runInner: the exec callback of an item runs a whole flow of its own - fresh nodes, a store of its own, the callback's
+// context - before it produces its outcome (the cookbook's batch of sub-flows; with several workers several such flows run
+// at the same time).  Nothing is logged unless something is wrong with it.
+func (b *batchRun) runInner(ctx context.Context) {
+	if !b.cfg.Inner || b.warm || ctx == nil || ctx.Err() != nil {
+		return
+	}
+	bad := func(format string, a ...any) {
+		b.log(Event{"ev": "innerbad", "msg": fmt.Sprintf(format, a...)})
+	}
+	defer func() {
+		if p := recover(); p != nil {
+			bad("the inner flow panicked: %v", p)
+		}
+	}()
+	own := flyt.NewSharedStore()
+	var seen []string
+	mk := func(name string, next flyt.Action) flyt.Node {
+		return &innerNode{BaseNode: flyt.NewBaseNode(), name: name, next: next, own: own, seen: &seen, bad: bad}
+	}
+	x, y, z := mk("a", "go"), mk("b", ""), mk("c", "end")
+	sub := flyt.NewFlow(y)
+	sub.Connect(y, flyt.DefaultAction, z)
+	fl := flyt.NewFlow(x)
+	fl.Connect(x, "go", sub)
+	act, err := flyt.Run(ctx, fl, own)
+	if ctx.Err() != nil {
+		return // cancelled meanwhile: whatever the inner run made of that is not this scenario's subject
+	}
+	if err != nil || act != "end" || strings.Join(seen, "") != "abc" {
+		bad("the inner flow returned (%q, %v) after visiting %v", act, err, seen)
+	}
+	if v, ok := own.Get("inner"); !ok || v != "abc" {
+		bad("the inner flow's store holds %v", v)
+	}
 }
